@@ -293,3 +293,76 @@ def r08_7(ctx):
 def r08_8(ctx):
     from .c01 import check_pack_order_fine
     check_pack_order_fine(ctx)
+
+
+@rule("R08.9", min_instances=10, desc="refined sampling, the parts R08.2 does not look at: the algebraic-variable polynomial inside the (k,l) loop and the closing point after it (end of the last step: last coefficient blocks, last control, final time, final-node parameters)")
+def r08_9(ctx):
+    P = ctx.prog
+    f = P.own_method("Stage", "_grid_intg_fine")
+    sc = ctx.scope(f)
+    K = lambda t: Norm(None).key(ast.parse(t, mode="eval").body)
+    NK = lambda x: Norm(None).key(x)
+    calls = [c for c in walk_no_nested(f.node) if is_call_to(c, "eval_at_integrator", "stage._method")]
+    inner = [c for c in calls if len(sc.enclosing_loops(c)) == 2]
+    outer = [c for c in calls if len(sc.enclosing_loops(c)) == 0]
+    if len(inner) != 1 or len(outer) != 1:
+        raise AnalysisError("_grid_intg_fine: expected one evaluation inside the (k,l) loops and one closing evaluation, found %d / %d" % (len(inner), len(outer)))
+    loops = sc.enclosing_loops(inner[0])
+    kv, lv = ast.unparse(loops[0][0]), ast.unparse(loops[1][0])
+    kloop, lloop = loops[0][2], loops[1][2]
+    POW = "hcat([constpow(ts,i) for i in range(%s.shape[1])]).T"
+
+    def defs_in(name, where):
+        return [d for d in sc.defs.get(name, []) if d.kind == "assign" and sc.within(d.stmt, where)]
+
+    def defs_after(name):
+        return [d for d in sc.defs.get(name, []) if d.kind == "assign" and not sc.within(d.stmt, kloop) and sc.order[d.stmt] > sc.order[kloop]]
+
+    # (a) algebraic variables inside the loop
+    cz = defs_in("coeff_z", lloop)
+    ok = len(cz) == 1 and Norm(sc, alias_only=True).key(cz[0].value) == Norm(None).key(ast.parse("stage._method.poly_coeff_z[%s*stage._method.M+%s]" % (kv, lv), mode="eval").body)
+    ctx.check(ok, "_grid_intg_fine selects the algebraic coefficient block of step (k,l)", detail="algebraic polynomial of another step", expected="coeff_z = poly_coeff_z[k*M+l]", found=ast.unparse(cz[0].value) if cz else None, fi=f)
+    tz = defs_in("tpower_z", lloop)
+    ok = len(tz) == 1 and NK(tz[0].value) == K(POW % "coeff_z")
+    ctx.check(ok, "_grid_intg_fine algebraic power basis is ascending with the width of coeff_z", detail="power basis of the algebraic polynomial", expected="[ts**i for i in range(coeff_z.shape[1])]", found=ast.unparse(tz[0].value) if tz else None, fi=f)
+    zz = defs_in("z", lloop)
+    ok = len(zz) == 2 and sorted(NK(d.value) for d in zz) == sorted([K("mtimes(coeff_z,tpower_z)"), K("nan")])
+    ctx.check(ok, "_grid_intg_fine algebraic value = coefficients * power basis (NaN only without coefficients)", detail="algebraic evaluation", expected="z = mtimes(coeff_z, tpower_z)", found="; ".join(ast.unparse(d.value) for d in zz), fi=f)
+    ef = inner[0].args[1] if len(inner[0].args) > 1 else None
+    ok = isinstance(ef, ast.Call) and len(ef.args) == 8 and ast.unparse(ef.args[3]) == "z" and isinstance(ef.args[2], ast.IfExp) and NK(ef.args[2].orelse) == K("mtimes(coeff_q,tpower)")
+    ctx.check(ok, "_grid_intg_fine hands z and the quadrature polynomial to their own slots of the expression function", detail="slot order (t, x, xq, z, u, p, t0, T)", expected="expr_f(local_t.T, x, mtimes(coeff_q,tpower), z, ...)",
+              found=ast.unparse(ef)[:140] if ef is not None else None, fi=f)
+    # (b) closing point
+    ts = defs_after("ts")
+    ok = len(ts) == 1 and NK(ts[0].value) in (K("tlocal[-1,:]"), K("tlocal[-1]"))
+    ctx.check(ok, "_grid_intg_fine closing point: local time = end of the last step", detail="closing sample taken elsewhere in the last step", expected="ts = tlocal[-1,:]", found=ast.unparse(ts[0].value) if ts else None, fi=f)
+    tp = defs_after("tpower")
+    ok = len(tp) == 1 and isinstance(tp[0].value, ast.IfExp) and NK(tp[0].value.orelse) == K(POW % "either_coeff")
+    ctx.check(ok, "_grid_intg_fine closing point: ascending power basis", detail="power basis at the closing point", expected="[ts**i for i in range(ncols)]", found=ast.unparse(tp[0].value) if tp else None, fi=f)
+    tz = defs_after("tpower_z")
+    ok = len(tz) == 1 and NK(tz[0].value) == K(POW % "coeff_z")
+    ctx.check(ok, "_grid_intg_fine closing point: ascending algebraic power basis", detail="algebraic power basis at the closing point", expected="[ts**i for i in range(coeff_z.shape[1])]", found=ast.unparse(tz[0].value) if tz else None, fi=f)
+    zz = defs_after("z")
+    ok = len(zz) == 2 and sorted(NK(d.value) for d in zz) == sorted([K("mtimes(coeff_z,tpower_z)"), K("nan")])
+    ctx.check(ok, "_grid_intg_fine closing point: algebraic value from the last step's polynomial", detail="algebraic evaluation at the closing point", expected="z = mtimes(coeff_z, tpower_z)", found="; ".join(ast.unparse(d.value) for d in zz), fi=f)
+    # coeff_z / coeff / coeff_q are not redefined between the loop and the closing evaluation (they are the last step's)
+    stale = [n for n in ("coeff_z",) if defs_after(n)]
+    ctx.check(not stale, "_grid_intg_fine closing point uses the coefficient block of the last step", detail="coefficients redefined after the loop", expected="coeff_z of step (N-1, M-1)", found=str(stale), fi=f)
+    ef = outer[0].args[1] if len(outer[0].args) > 1 else None
+    ok = isinstance(ef, ast.Call) and len(ef.args) == 8
+    if ok:
+        a = ef.args
+        na = Norm(sc, alias_only=True)
+        G = "stage._method.control_grid"
+        ok_t = na.key(a[0]) == Norm(None).key(ast.parse("%s[%s+1]" % (G, kv), mode="eval").body)
+        ok_x = isinstance(a[1], ast.IfExp) and NK(a[1].orelse) == K("mtimes(stage._method.poly_coeff[-1],tpower)")
+        ok_q = isinstance(a[2], ast.IfExp) and NK(a[2].orelse) == K("mtimes(horzcat(stage._method.xqk[-2],stage._method.poly_coeff_q[-1]),tpower)")
+        ok_z = ast.unparse(a[3]) == "z"
+        ok_u = ast.unparse(a[4]) == "stage._method.U[-1]"
+        pv = defs_after("pv")
+        ok_p = ast.unparse(a[5]) == "pv" and len(pv) == 1 and NK(pv[0].value) == K("stage._method.get_p_sys(stage,-1)")
+        for okk, what, exp, fnd in ((ok_t, "time", "time[k+1] (k left at N-1: the final time)", a[0]), (ok_x, "state", "mtimes(poly_coeff[-1], tpower)", a[1]), (ok_q, "quadrature", "mtimes(horzcat(xqk[-2], poly_coeff_q[-1]), tpower)", a[2]),
+                                    (ok_z, "algebraic", "z", a[3]), (ok_u, "control", "U[-1]", a[4]), (ok_p, "parameters", "pv = get_p_sys(stage, -1)", a[5])):
+            ctx.check(okk, "_grid_intg_fine closing point: %s slot" % what, detail="closing sample evaluated with a wrong %s" % what, expected=exp, found=ast.unparse(fnd)[:100], fi=f, node=ef)
+        ok = ast.unparse(outer[0].args[0]) == "stage" and [ast.unparse(x) for x in outer[0].args[2:]] == [kv, lv]
+    ctx.check(ok, "_grid_intg_fine closing evaluation resolves the remaining symbols at the last step (k,l left by the loops)", detail="closing evaluation", expected="eval_at_integrator(stage, expr_f(...8 args...), k, l)", found=ast.unparse(outer[0])[:100], fi=f)
